@@ -23,7 +23,7 @@ RULE = ('tables: S(12)/S(16) ∪ F, two labelings; per table every non-empty sub
         'and is not a chain; distinct = distinct table')
 ASSUMPTIONS = ['R1 closure and least-concept search are the definitions',
                'object and property labels are disjoint (required by Context)']
-HITS = ('hit_closure_adds', 'hit_nonempty_bottom', 'hit_nonempty_top_intent', 'hit_sibling_schedule')
+HITS = ('hit_reused_query_object', 'hit_closure_adds', 'hit_nonempty_bottom', 'hit_nonempty_top_intent', 'hit_sibling_schedule')
 BUDGET = {'quick': 240, 'thorough': 3000}
 
 
@@ -68,6 +68,35 @@ def check_case(case, ctr):
                                   repro=case.py_ctx() + f'print(c[{tuple(q)!r}])  # expected {exp!r}\n'))
 
     closures = {'o': {}, 'p': {}}
+    # ONE list / set object refilled in place between consecutive calls (nothing else in between)
+    for holder, fill in (([], lambda h, names: h.__setitem__(slice(None), names)),
+                         (set(), lambda h, names: (h.clear(), h.update(names)))):
+        for route in ('context', 'lattice'):
+            for axis, length, labs in (('o', case.n, case.objs), ('p', case.m, case.props)):
+                if length > 8:
+                    continue
+                for arg in light_args(length):
+                    if not arg:
+                        continue
+                    if axis == 'o':
+                        e, i = ref.closure_objs(arg), ref.intent_of(arg)
+                    else:
+                        e, i = ref.extent_of(arg), ref.closure_props(arg)
+                    names = [labs[x] for x in arg]
+                    fill(holder, names)
+                    ctr['calls'] += 1
+                    ctr['hit_reused_query_object'] += 1
+                    if route == 'context':
+                        got = ctx[holder]
+                        ok = (len(got) == 2 and frozenset(got[0]) == frozenset(case.olab(e))
+                              and frozenset(got[1]) == frozenset(case.plab(i)))
+                    else:
+                        got = lat[holder]
+                        ok = got is al[ref.index_of_extent(e)]
+                    if not ok:
+                        bad('query-object-refilled-in-place', names,
+                            [case.olab(e), case.plab(i)], repr(got))
+                        return V
     for axis, length, labs in (('o', case.n, case.objs), ('p', case.m, case.props)):
         for arg in light_args(length):
             if axis == 'o':
@@ -213,6 +242,7 @@ def run_shard(shard, tier):
                 vs = [common.violation(ID, 'foreign-label', case.ident(), None, str(e))]
             except Exception as e:
                 vs = [common.library_exception(ID, case.ident(), e)]
+            e1.track(case, vs, tier)
             ctr['evaluations'] += 1
             res['violations'].extend(vs[:2])
         for k_, v_ in ctr.items():
